@@ -76,11 +76,17 @@ def case_tokens(case, ops, want_snaps=True):
     else:
         order = sorted(range(len(comps)), key=lambda i: crank[i])
     for op in ops:
-        assert op["op"] == "simulate", op
-        ab = list(op.get("abs", []))
-        out += [0, op.get("rule", 0), len(ab)] + ab + [int(bool(op.get("auto_abs"))), int(bool(op.get("init_state", True))),
-                                                      int(bool(op.get("init_log", True))), int(op.get("max_time", 200))]
-        out += [len(order)] + order
+        if op["op"] == "simulate":
+            ab = list(op.get("abs", []))
+            out += [0, op.get("rule", 0), len(ab)] + ab + [int(bool(op.get("auto_abs"))), int(bool(op.get("init_state", True))),
+                                                          int(bool(op.get("init_log", True))), int(op.get("max_time", 200))]
+            out += [len(order)] + order
+        elif op["op"] == "remove_absence":
+            out += [1]
+        elif op["op"] == "insert_absence":
+            out += [2, len(op["list"])] + list(op["list"])
+        else:
+            raise AssertionError(op)
     return out
 
 
@@ -165,6 +171,8 @@ def parse_logs(lines, k, d):
         elif tag == "LG":
             c.n()
             d["TEAM"].append({"l_cost": c.lst(c.q)})
+        elif tag == "LA":
+            d["abs"] = c.lst(c.n)
         else:
             break
         k += 1
@@ -236,9 +244,25 @@ def compare_snap(a, b, fields, where, out, limit=8):
                         return
 
 
+MODEL_OPS = ("simulate", "remove_absence", "insert_absence")
+
+
 def applicable(case):
-    """cases the model covers: sequences of simulate operations"""
-    return all(op["op"] == "simulate" for op in case["ops"])
+    """cases the model covers: sequences of simulate / remove_absence / insert_absence operations"""
+    return all(op["op"] in MODEL_OPS for op in case["ops"])
+
+
+def canon_none(d):
+    """the model writes an inserted 'no allocation' entry as [] where the code writes None"""
+    for kind, names in (("T", ("l_aw", "l_af")), ("W", ("l_as",)), ("F", ("l_as",))):
+        for e in d.get(kind, []):
+            for nm in names:
+                if nm in e:
+                    e[nm] = [[] if x is None else x for x in e[nm]]
+    for e in d.get("WP", []):
+        if "l_pc" in e:
+            e["l_pc"] = [[] if x is None else x for x in e["l_pc"]]
+    return d
 
 
 def compare(case, trace, cone=None, model=None):
@@ -273,8 +297,11 @@ def compare(case, trace, cone=None, model=None):
                 compare_snap(msn, psn, cone.get("live", {}), where, out)
                 if len(out) >= 8:
                     return out
-        d, md = rec["dump"], m["dump"]
+        import copy as _copy
+        d, md = canon_none(_copy.deepcopy(rec["dump"])), m["dump"]
         where = "op%d dump" % oi
+        if "abs" in md and cone is FULL and md.get("abs") != d.get("abs"):
+            out.append("%s absence_time_list model=%s impl=%s" % (where, md.get("abs"), d.get("abs")))
         for g in cone.get("dump_globals", []):
             if md.get(g) != d.get(g):
                 out.append("%s %s model=%s impl=%s" % (where, g, md.get(g), d.get(g)))
